@@ -61,8 +61,20 @@ def gen_cases(ctx):
                     ops += [("b", 0, x, x, x, x, r.uniform(0, 10)), ("n", 1, x)]
                 cases.append(Case("one_%s_p%d_%d" % (ind, p, j), ops, dump=(),
                                   meta={"ind": ind, "params": pr[:3], "style": "oneprice", "n": len(xs), "fam": "oneprice"}))
+    # one-price bars near f64::MAX (seed-independent): window ranges that overflow — a bar path that treats overflow differently from the
+    # scalar path (FastStochastic / SlowStochastic compare bit for bit; TrueRange / ATR overflow identically in both paths)
+    huge = []      # not rescaled: a rescaled copy would feed infinities
+    for ind in ("FAST", "SLOW", "TR", "ATR"):
+        for p in (2, 3):
+            pr = (p, 2 if ind == "SLOW" else 0, 0, 0.0)
+            xs = [-1e308, 1e308, 5e307, 1.7e308, -1.7e308, 3e307, 1e308, 1e308, -5e307, 0.0, 1.5e308]
+            ops = [new_op(0, ind, pr), new_op(1, ind, pr)]
+            for x in xs:
+                ops += [("b", 0, x, x, x, x, 1.0), ("n", 1, x)]
+            huge.append(Case("one_%s_p%d_huge" % (ind, p), ops, dump=(),
+                              meta={"ind": ind, "params": pr[:3], "style": "oneprice", "n": len(xs), "fam": "oneprice_huge"}))
     tiny = [Case(c.cid + "_x2^-60", scale_ops(c.ops, -60), dump=c.dump, meta=dict(c.meta, scale=-60)) for c in cases if c.meta["fam"] == "oneprice"]
-    return with_scaled(cases, r) + tiny
+    return with_scaled(cases, r) + tiny + huge
 
 
 def nontrivial(c):
@@ -75,7 +87,7 @@ def check_impl(ctx, cases):
     for c in cases:
         ind = c.meta["ind"]
         a = outs_of(c, 0)
-        if c.meta["fam"] == "oneprice":
+        if c.meta["fam"] in ("oneprice", "oneprice_huge"):
             b = outs_of(c, 1)
             for k, ((i, oa), (j, ob)) in enumerate(zip(a, b)):
                 rel = 1e-12 if ind == "KC" else 0.0
